@@ -32,6 +32,9 @@ use std::ops::Range;
 use std::path::Path;
 use std::path::PathBuf;
 use std::sync::atomic;
+#[cfg(apollo_rs_verif)]
+use crate::verif::AtomicU64;
+#[cfg(not(apollo_rs_verif))]
 use std::sync::atomic::AtomicU64;
 use std::sync::Arc;
 use std::sync::OnceLock;
@@ -432,6 +435,8 @@ impl SourceFile {
     }
 
     pub(crate) fn ariadne(&self) -> &ariadne::Source {
+        #[cfg(apollo_rs_verif)]
+        let _verif_region = crate::verif::once_region("once:SourceFile::source");
         self.source.get_or_init(|| {
             // FIXME This string copy is not ideal, but changing to a reference counted string affects
             // public API
@@ -544,6 +549,54 @@ impl FileId {
             Self { id }
         } else {
             panic!()
+        }
+    }
+}
+
+/// Verification hooks, see `crate::verif`
+#[cfg(apollo_rs_verif)]
+#[doc(hidden)]
+impl FileId {
+    /// Set the global file ID counter, without a scheduling point
+    pub fn __verif_set_next(value: u64) {
+        NEXT.raw().store(value, atomic::Ordering::SeqCst)
+    }
+
+    /// Read the global file ID counter, without a scheduling point
+    pub fn __verif_peek_next() -> u64 {
+        NEXT.raw().load(atomic::Ordering::SeqCst)
+    }
+
+    /// The integer value of this ID
+    pub fn __verif_raw(self) -> u64 {
+        self.id.get()
+    }
+
+    /// An ID with the given integer value, if it is non-zero and fits 63 bits
+    pub fn __verif_from_raw(raw: u64) -> Option<Self> {
+        if raw & ID_MASK == raw {
+            NonZeroU64::new(raw).map(|id| Self { id })
+        } else {
+            None
+        }
+    }
+
+    /// `TaggedFileId::pack` then unpack
+    pub fn __verif_pack_roundtrip(tag: bool, id: Self) -> (bool, Self) {
+        let packed = TaggedFileId::pack(tag, id);
+        (packed.tag(), packed.file_id())
+    }
+}
+
+/// Verification hooks, see `crate::verif`
+#[cfg(apollo_rs_verif)]
+#[doc(hidden)]
+impl SourceSpan {
+    /// A location that does not come from parsing. Panics if `start > end`.
+    pub fn __verif_new(file_id: FileId, start: u32, end: u32) -> Self {
+        Self {
+            file_id,
+            text_range: TextRange::new(start.into(), end.into()),
         }
     }
 }
